@@ -1,4 +1,82 @@
-(* placeholder until proofs land *)
-From PV Require Import Model.Timeline.
-Theorem C05_placeholder : True. Proof. exact I. Qed.
-Print Assumptions C05_placeholder.
+(* C05  co_iter and crop return exactly the pairs / segments the mode calls for.
+   [wf eps l]: what a Timeline iterates (C01). regions = support() of the support
+   argument (a Segment counts as a one-segment timeline). Statements only. *)
+From PV Require Import Model.Timeline Proofs.SegmentP Proofs.SortedP Proofs.SupportP Proofs.CropP.
+
+Section C05.
+Variable eps : Z.
+Hypothesis Heps : 0 <= eps.
+Variables a b : list seg.
+Hypothesis Ha : wf eps a.
+Hypothesis Hb : wf eps b.
+
+(* the range query inside co_iter loses nothing: co_iter is the plain nested
+   comprehension, in that order *)
+Theorem C05_co_iter_is_comprehension :
+  co_iter eps a b = flat_map (fun s => map (fun o => (s, o)) (filter (intersects eps s) b)) a.
+Proof. exact (co_iter_spec eps Heps a b Ha Hb). Qed.
+Theorem C05_co_iter_exact : forall s o,
+  In (s, o) (co_iter eps a b) <-> In s a /\ In o b /\ nonempty eps (sand s o) = true.
+Proof. exact (fun s o => co_iter_In_and eps Heps a b s o Ha Hb). Qed.
+Theorem C05_co_iter_each_pair_once : NoDup (co_iter eps a b).
+Proof. exact (co_iter_nodup eps Heps a b Ha Hb). Qed.
+Theorem C05_co_iter_chronological : StronglySorted pair_lt (co_iter eps a b).
+Proof. exact (co_iter_sorted eps Heps a b Ha Hb). Qed.
+
+Variable S : sup.
+Theorem C05_crop_loose : forall x,
+  In x (crop eps a S Loose) <-> In x a /\ exists r, In r (norm_support eps S) /\ intersects eps x r = true.
+Proof. exact (crop_loose_spec eps Heps a Ha S). Qed.
+Theorem C05_crop_strict : forall x,
+  In x (crop eps a S Strict) <-> In x a /\ exists r, In r (norm_support eps S) /\ sin r x = true.
+Proof. exact (crop_strict_spec eps Heps a Ha S). Qed.
+Theorem C05_crop_intersection : forall y,
+  In y (crop eps a S Inter) <->
+  exists x r, In x a /\ In r (norm_support eps S) /\ y = sand x r /\ nonempty eps y = true.
+Proof. exact (crop_inter_spec eps Heps a Ha S). Qed.
+Theorem C05_crop_result_is_timeline : forall m, wf eps (crop eps a S m).
+Proof. exact (crop_wf eps a S). Qed.
+Theorem C05_crop_mapping : forall m,
+  dict_get m (crop_mapping eps a S) =
+    match map fst (filter (fun p => seqb m (snd p)) (crop_iter eps a S Inter)) with
+    | [] => None
+    | vs => Some vs
+    end.
+Proof. exact (crop_mapping_spec eps a S). Qed.
+Theorem C05_crop_mapping_lists_exactly_the_originals : forall m x,
+  (exists vs, dict_get m (crop_mapping eps a S) = Some vs /\ In x vs) <->
+  In x a /\ nonempty eps m = true /\ exists r, In r (norm_support eps S) /\ m = sand x r.
+Proof. exact (crop_mapping_members eps Heps a Ha S). Qed.
+
+Theorem C05_timeline_support_equiv_its_support : forall m,
+  crop eps a (SupTl b) m = crop eps a (SupTl (support eps 0 b)) m.
+Proof. exact (fun m => crop_support_equiv eps Heps a b m Hb). Qed.
+Theorem C05_segment_support_equiv_one_segment_timeline : forall x m,
+  crop eps a (SupSeg x) m = crop eps a (SupTl (tl_of eps [x])) m.
+Proof. exact (crop_segment_equiv eps a). Qed.
+Theorem C05_empty_support_gives_empty : forall m,
+  crop eps a (SupTl []) m = [] /\ forall x, nonempty eps x = false -> crop eps a (SupSeg x) m = [].
+Proof. exact (fun m => conj (crop_empty_timeline_support eps a m) (fun x => crop_empty_segment_support eps a x m)). Qed.
+End C05.
+
+Example C05_nonvacuous :
+  wf 0 [(0,2); (1,2); (3,4)] /\
+  co_iter 0 [(0,2); (1,2); (3,4)] [(1,3); (3,5)] = [((0,2),(1,3)); ((1,2),(1,3)); ((3,4),(3,5))] /\
+  crop 0 [(0,2); (1,2); (3,4)] (SupSeg (1,3)) Loose = [(0,2); (1,2)] /\
+  crop 0 [(0,2); (1,2); (3,4)] (SupSeg (1,3)) Strict = [(1,2)] /\
+  crop_mapping 0 [(0,2); (1,2); (3,4)] (SupSeg (1,3)) = [((1,2), [(0,2); (1,2)])].
+Proof. split; [split; repeat constructor | vm_compute; repeat split]. Qed.
+
+Print Assumptions C05_co_iter_is_comprehension.
+Print Assumptions C05_co_iter_exact.
+Print Assumptions C05_co_iter_each_pair_once.
+Print Assumptions C05_co_iter_chronological.
+Print Assumptions C05_crop_loose.
+Print Assumptions C05_crop_strict.
+Print Assumptions C05_crop_intersection.
+Print Assumptions C05_crop_result_is_timeline.
+Print Assumptions C05_crop_mapping.
+Print Assumptions C05_crop_mapping_lists_exactly_the_originals.
+Print Assumptions C05_timeline_support_equiv_its_support.
+Print Assumptions C05_segment_support_equiv_one_segment_timeline.
+Print Assumptions C05_empty_support_gives_empty.
